@@ -31,3 +31,19 @@ Theorem C12_all_tests_counted : forall w o l ts s,
   run_seq w o l ts s = run_all w o l ts s.
 Proof. exact run_seq_all. Qed.
 Print Assumptions C12_all_tests_counted.
+
+(* ------------------------------------------------------------------------------------------------------------
+   The whole run: the reported failure and error lists are an exact ledger of the failure / error events of all
+   processes, and the reported skip count is the ledger of the skip events of the parent process.  (Skips that
+   happen inside a layer subprocess are not transmitted by the 3-integer report protocol: that is the open
+   finding C12-child-skips, which the statement makes visible by summing over r_parent only.) *)
+From ZT Require Import LayersFacts RunLedger.
+
+Theorem C12_whole_run_ledger : forall w o,
+  wf (lw w) -> (forall t, In t (tests w) -> t_layer t < nlayers (lw w)) ->
+  let r := run w o in
+  length (r_fail r) = total nfail_ev (r_parent r) + sum_children nfail_ev (r_children r) /\
+  length (r_err r) = total nerr_ev (r_parent r) + sum_children nerr_ev (r_children r) /\
+  r_skip r = total nskip_ev (r_parent r).
+Proof. exact run_ledger. Qed.
+Print Assumptions C12_whole_run_ledger.
